@@ -3,7 +3,7 @@ N3 UNITFORMS, N4 EXAMPLES.  The prefix table is extracted from PrefixParser::pre
 import os
 
 from core import RuleOut
-from hirlib import ctor_variant, peel, peel_refs, walk
+from hirlib import ctor_variant, peel, peel_refs, strip_generics, walk
 
 BUILTIN_VALUES = {"_", "ans"}
 BUILTIN_TYPES = {"Bool", "String", "DateTime", "Fn", "List", "Dim"}
@@ -377,4 +377,71 @@ def rule_examples(lib, prefixes):
     out.analysed = {"examples": n_ex, "identifiers": n_ids, "base_modules": len(base)}
     out.floor("examples", n_ex, 177)
     out.floor("identifiers", n_ids, 300)
+    return out
+
+
+def rule_echoform(lib, prefixes, crate, dispositions=None):
+    """ECHOFORM — the echoed spelling of a prefixed unit is one the prefix parser accepts.
+
+    printer (Rust facts)  the UnitIdentifier arm of the typed Expression printer: which prefix spelling
+                          (Prefix::as_string_long / as_string_short) and which name field (full_name / name) it emits;
+    library (nbt facts)   for every unit with metric/binary prefixes: does the name the printer emits accept the prefix
+                          spelling the printer emits?  `@aliases(bps: short) unit bps` accepts only `Mbps`, so the echo
+                          `megabps` of `5 Mbps` is an unknown identifier."""
+    from hirlib import pat_variants as _pv
+
+    dispositions = dispositions or {}
+    out = RuleOut("ECHOFORM", "a prefixed unit is echoed in a (prefix spelling, name) combination that the unit accepts")
+    printers = [b for d, b in crate.hir.items() if d.endswith("::pretty_print") and strip_generics(b.get("impl_self") or "").endswith("typed_ast::Expression")]
+    if not printers:
+        out.error("anchor missing: typed Expression printer")
+        return out
+    pp = printers[0]
+    spelling = namefield = None
+    arm_line = pp["line"]
+    for m in walk(pp["body"]):
+        if m.get("k") != "Match" or str(m.get("src")) != "Normal":
+            continue
+        for a in m["arms"]:
+            if _pv(a["pat"], "crate::typed_ast::Expression") != {"UnitIdentifier"}:
+                continue
+            arm_line = crate.loc(pp, a["pat"])[1]
+            binds = {}
+            for p in walk(a["pat"]):
+                if p.get("k") == "Struct":
+                    for it in p.get("fields", []) or []:
+                        if isinstance(it, list) and len(it) == 2:
+                            for q in walk(it[1]):
+                                if q.get("k") == "Binding":
+                                    binds[q["id"]] = str(it[0])
+            for x in walk(a["body"]):
+                if x.get("k") == "MethodCall" and x["name"] in ("as_string_long", "as_string_short"):
+                    spelling = "long" if x["name"] == "as_string_long" else "short"
+                if x.get("k") == "Path" and x["res"].get("r") == "local" and binds.get(x["res"].get("id")) in ("full_name", "name"):
+                    namefield = binds[x["res"]["id"]]
+    f = crate.file_of(pp)
+    if spelling is None or namefield is None:
+        out.error("anchor missing: the UnitIdentifier arm of the typed printer does not emit Prefix::as_string_long/short + full_name/name")
+        return out
+    nm = Names(lib, prefixes)
+    n = 0
+    for mn in sorted(lib.modules):
+        seen = set()
+        for (alias, ap, metric, binary, d) in nm.units[mn]:
+            if not (metric or binary) or d.name in seen:
+                continue
+            if namefield == "full_name" and alias != d.name:
+                continue
+            seen.add(d.name)
+            n += 1
+            key = "unit:%s" % d.name
+            ok = ap in (spelling, "both")
+            if ok:
+                out.ok(key, rel(lib, lib.modules[mn]), d.line, "`<%s prefix>%s` is an accepted form" % (spelling, d.name))
+            else:
+                example = next((pl for (pl, ps, kind, exp) in prefixes if (kind == "Metric" and metric) or (kind == "Binary" and binary)), "kilo")
+                disp = dispositions.get(key)
+                out.violation(key, rel(lib, lib.modules[mn]), d.line, "unit `%s` accepts only %s prefixes on its own name, but the printer (%s:%d) echoes every prefixed use as `<%s prefix>%s` (e.g. `%s%s`), which is an unknown identifier when the echoed line is read back%s" % (d.name, ap, f, arm_line, spelling, d.name, example, d.name, (". Witness: " + disp) if disp else ""))
+    out.analysed = {"prefixable_units": n, "printer_form": "%s prefix + %s" % (spelling, namefield)}
+    out.floor("prefixable_units", n, 40)
     return out
